@@ -69,4 +69,44 @@ theorem grouped_normal_form : grouped_normal_form_full := by
     VaxisModel.Lemmas.ParserRunFine.FInv_init rfl (fun i h => by cases h) ls r h
     (fun i hi => by rw [hd] at hi; cases hi) (fun c hc => by rw [hg c hc]; exact ⟨by decide, by decide⟩)
 
+/-- **A complete schedule of single statements without `Close()` is — up to a result-preserving
+    permutation — a schedule of the enumeration.**  `TimerOk` table, from the initial state, a schedule
+    `ls` of single statements without `closeSig` that runs to `r` with everything over (`finished`: main
+    `done`, every callback `gone`, no timer pending): there are a permutation `ls'` of `ls` with the same
+    result and the schedule `s = toS T false {} ls'` of harness labels such that `srun T {} s = some r`
+    and `s` is `Reduced` (every label is one of `enabled`: reads return the next scripted input, expiries
+    stand right behind the arming statement, nothing happens after `finished`) for the script
+    `runes ls'` = the runes the read returns along `ls'`, with `mayClose = false`. -/
+theorem complete_schedule_is_reduced_noclose (T : Table) (hT : VaxisModel.Lemmas.ParserRunFine.TimerOk T)
+    (ls : List FLabel) (r : FSys × List Seq) (h : FSys.run T FSys.init ls = some r)
+    (hfin : VaxisModel.Model.ParserRunSched.finished r.1 = true) (hnc : ∀ l ∈ ls, l ≠ .closeSig) :
+    ∃ ls', FSys.run T FSys.init ls' = some r ∧ ls'.Perm ls ∧
+      VaxisModel.Model.ParserRunSched.srun T {} (toS T false {} ls') = some r ∧
+      VaxisModel.Props.C08Sched.Reduced T {} (runes ls') false (toS T false {} ls') := by
+  have hf := hfin
+  simp only [VaxisModel.Model.ParserRunSched.finished, Bool.and_eq_true, decide_eq_true_eq, List.all_eq_true] at hf
+  obtain ⟨⟨hd, hg⟩, _⟩ := hf
+  obtain ⟨ls', h1, h2, h3, _, h5, h6, h7⟩ := grouped_normal_form_general T hT FSys.init
+    VaxisModel.Lemmas.ParserRunFine.FInv_init rfl (fun i h => by cases h) ls r h
+    (fun i hi => by rw [hd] at hi; cases hi)
+    (fun c hc => by have := hg c hc; rw [this]; exact ⟨by decide, by decide⟩)
+  refine ⟨ls', h1, h2, h7, ?_⟩
+  exact reduced_core T ls' FSys.init false r h1 hfin (fun l hl => hnc l (h2.subset hl)) h5 h6 h3 (fun h => by cases h)
+    (fun i h => by cases h)
+
+/-- … hence it is in the list `enumerate` produces (under the fuel and cap hypotheses of
+    `enumerate_complete`): the enumeration of forced schedules misses no complete behaviour of the
+    statement-grained system without `Close()`. -/
+theorem complete_schedule_is_enumerated_noclose (T : Table) (hT : VaxisModel.Lemmas.ParserRunFine.TimerOk T)
+    (ls : List FLabel) (r : FSys × List Seq) (h : FSys.run T FSys.init ls = some r)
+    (hfin : VaxisModel.Model.ParserRunSched.finished r.1 = true) (hnc : ∀ l ∈ ls, l ≠ .closeSig) :
+    ∃ ls' s, ls'.Perm ls ∧ FSys.run T FSys.init ls' = some r ∧
+      VaxisModel.Model.ParserRunSched.srun T {} s = some r ∧
+      ∀ fuel cap, s.length < fuel →
+        (VaxisModel.Model.ParserRunSched.enumerate T fuel {} (runes ls') false [] cap []).length < cap →
+        s ∈ VaxisModel.Model.ParserRunSched.enumerate T fuel {} (runes ls') false [] cap [] := by
+  obtain ⟨ls', h1, h2, h3, h4⟩ := complete_schedule_is_reduced_noclose T hT ls r h hfin hnc
+  exact ⟨ls', _, h2, h1, h3, fun fuel cap hl hc =>
+    VaxisModel.Props.C08Sched.enumerate_complete T fuel (runes ls') false cap _ h4 hl hc⟩
+
 end VaxisModel.Props.C08SchedEnum
